@@ -152,6 +152,37 @@ def run(ck, facts, tier):
         else:
             ck.violation(R, "disjoint:only-on-unique-refutation", dj.where(), "two impls are disjoint only if `not { exists.. overlap }` has a Unique solution")
 
+    R = "C19.VERDICT-BY-SOLVER"
+    ck.rule(R, "K3 (must-pass-through): CoherenceSolver::disjoint and ::specializes reach their return only through the solver call "
+               "(Solver::solve / has_unique_solution) on the goal they built - no shortcut decides overlap or specialization from the "
+               "syntactic shape of the impl headers (projections normalize, where clauses matter); and the value returned is computed "
+               "from that call's result")
+    from kit import all_returns_pass
+    for fn in ("disjoint", "specializes"):
+        b = need_body(ck, facts, R, CS + fn)
+        if not b:
+            continue
+        cfg = b.cfg
+        solve = [x for x in cfg.call_blocks(("Solver::solve", "Solver::has_unique_solution", "Solver::solve_limited"))]
+        if not solve:
+            ck.violation(R, "%s:no-solver-call" % fn, b.where(), "the verdict is not obtained from a solver")
+            continue
+        all_returns_pass(ck, R, b, [0], solve, "%s:every-return-after-solve" % fn)
+        # literal `true` may only appear where the solver's answer has been examined
+        lit_true = [n for n in walk(b.thir) if n.get("k") == "lit" and "true" in str(n.get("v"))]
+        under_match = set()
+        for m in walk(b.thir):
+            if m.get("k") == "match" and "Solution" in str(m.get("sty", "")):
+                for arm in m["arms"]:
+                    for n in walk(arm["body"]):
+                        under_match.add(id(n))
+        stray = [n for n in lit_true if id(n) not in under_match]
+        if stray:
+            ck.violation(R, "%s:literal-true-outside-solution-match" % fn, b.where(stray[0].get("ln")),
+                         "`true` is produced without looking at the solver's answer")
+        else:
+            ck.ok(R, "%s:true-only-from-solution" % fn, "%d literal(s)" % len(lit_true))
+
     R = "C19.PRIORITIES"
     ck.rule(R, "K3/K9: priorities are the longest-chain depth: set_priorities records the node's priority and then, on *every* visit (a node is "
                "reached once per incoming edge and a later visit may raise its priority), walks *all* forest.neighbors(idx) with p + 1 - no "
